@@ -886,12 +886,22 @@ func ContentFree(v reflect.Value) bool {
 	return false
 }
 
+// FloatsByValue makes the comparison use == on floats (so -0 equals +0, as
+// reflect.DeepEqual does) instead of comparing bits.
+var FloatsByValue bool
+
 func eq(a, b reflect.Value, path string) (bool, string) {
 	if a.Type() != b.Type() {
 		return false, path + ": type"
 	}
 	switch a.Kind() {
 	case reflect.Float32, reflect.Float64:
+		if FloatsByValue {
+			if af, bf := a.Float(), b.Float(); af == bf || (af != af && bf != bf) {
+				return true, ""
+			}
+			return false, fmt.Sprintf("%s: %v != %v", path, a, b)
+		}
 		if a.Kind() == reflect.Float32 {
 			if math.Float32bits(float32(a.Float())) != math.Float32bits(float32(b.Float())) {
 				return false, fmt.Sprintf("%s: %v != %v", path, a, b)
